@@ -1,12 +1,18 @@
 // C03 — Fd events fire only when enabled and ready; mutation in callbacks is safe.
 //
 // A scenario is a flat op list (every list is valid):
-//   cfg  mode perm engines        mode 0 = one runLoop(kForever) driven by vloop::drive, 1 = runLoop(kOnce) per pass with a
+//   cfg  mode perm engines        mode 0 = one runLoop(kForever) driven by a tick re-posted with runNext per pass, 1 = runLoop(kOnce) per pass with a
 //                                 pending runNext; perm = order of the watched descriptor NUMBERS (select serves ready
 //                                 descriptors in ascending number); engines 0 = epoll then select, 1 = epoll only, 2 = select only
 //   fd   kind                     a descriptor pair: 0 = pipe, read end watched; 1 = pipe, write end watched; 2 = unix socketpair
 //   ev   fd mask oneshot disabled an initial event (mask 0=R 1=W 2=R|W 3=none; on a watched pipe write end R is dropped)
 //   pass                          starts the script of the next loop pass (ops before the first `pass` belong to pass 0)
+//   intr d                        (after pass/rdy/out ops of a pass) the wait of this pass is INTERRUPTED by a handled signal:
+//                                 if no enabled event has its descriptor ready, the loop really blocks in epoll_wait/select
+//                                 (no pending runNext, no timer) and a real-time signal with a no-op handler, sent to the
+//                                 loop thread 0.4-1.2 ms later by a POSIX timer, makes the wait fail with EINTR; the handler
+//                                 writes one byte to a harness-owned pipe whose (un-modelled) read event lets the loop go on.
+//                                 If something is ready the pass is an ordinary one.  Same oracle: no callback at all is due.
 //   rdy  fd what n                readiness script, applied between passes: 0 write n bytes towards the watched end,
 //                                 1 drain the watched end, 2 fill the watched end until it is unwritable, 3 drain the peer
 //                                 (watched end writable again), 4 close the peer end
@@ -37,13 +43,15 @@
 // (epoll adds HUP-as-read and ERR); liveness beyond the differential.
 #define VERIF_MAIN
 #include "../common/verif.h"
-#include "../common/vloop.h"
 #include <tbox/event/loop.h>
 #include <tbox/event/fd_event.h>
 #include <algorithm>
 #include <memory>
 #include <poll.h>
 #include <sys/socket.h>
+#include <sys/syscall.h>
+#include <signal.h>
+#include <time.h>
 
 using namespace verif;
 using tbox::event::FdEvent;
@@ -51,7 +59,7 @@ using tbox::event::Loop;
 
 namespace {
 
-enum { CFG, FD, EV, PASS, RDY, OUT, CB, NOPS };
+enum { CFG, FD, EV, PASS, RDY, OUT, CB, INTR, NOPS };
 enum Kind { PIPE_R, PIPE_W, SOCK };
 enum Rdy { R_WRITE, R_DRAIN, R_FILL, R_UNFILL, R_CLOSEPEER, NRDY };
 enum Act { A_DISABLE_SELF, A_ENABLE, A_DISABLE, A_DESTROY, A_CREATE, A_REPLACE, A_CLOSEFD, A_READ, A_REINIT, NACT };
@@ -71,6 +79,8 @@ struct Def {
   std::vector<int> kinds;
   std::vector<DEv> evs;
   std::vector<std::vector<DStep>> passes;
+  std::vector<int> intr;          // per pass: 0 = ordinary, else delay of the interrupting signal in microseconds
+  bool has_intr = false;
   std::vector<DCb> cbs[kMaxEv];
 };
 
@@ -82,7 +92,7 @@ Def parse(const Scenario &s) {
   if (d.kinds.empty()) d.kinds.push_back(PIPE_R);
   if (d.kinds.size() < 2) d.kinds.push_back(SOCK);
   int nf = (int)d.kinds.size();
-  d.passes.emplace_back();
+  d.passes.emplace_back(); d.intr.push_back(0);
   bool cfg_seen = false;
   for (auto &op : s.ops) {
     switch (op.code) {
@@ -94,7 +104,8 @@ Def parse(const Scenario &s) {
         DEv e; e.fdi = (int)op.in(0, 0, nf - 1); e.mask = fix_mask(d.kinds[e.fdi], kMaskTab[op.in(1, 0, 3)]);
         e.oneshot = op.in(2, 0, 1) != 0; e.enabled = op.in(3, 0, 1) == 0;
         d.evs.push_back(e); break; }
-      case PASS: if ((int)d.passes.size() < kMaxPasses) d.passes.emplace_back(); break;
+      case PASS: if ((int)d.passes.size() < kMaxPasses) { d.passes.emplace_back(); d.intr.push_back(0); } break;
+      case INTR: d.intr.back() = 400 + 400 * (int)op.in(0, 0, 2); d.has_intr = true; break;
       case RDY: {
         if ((int)d.passes.back().size() >= kMaxStepsPerPass) break;
         DStep st{}; st.is_rdy = true; st.fdi = (int)op.in(0, 0, nf - 1); st.what = (int)op.in(1, 0, NRDY - 1); st.n = (int)op.in(2, 1, 3000);
@@ -137,6 +148,7 @@ struct Flags {   // shape of the case (both back-ends or'ed)
   bool enable_other = false, rearm_self = false, closefd_in_cb = false, oneshot_fired = false, created_in_cb = false;
   bool hup = false, unwritable = false, deferred_self_delete = false, read_in_cb = false, shared_fd_fired = false;
   bool nt = false, err_ambiguous = false, reinit_in_cb = false;
+  bool intr_blocked = false, intr_eintr = false, intr_with_enabled_idle = false, intr_not_blocking = false;
   int callbacks = 0;
 };
 
@@ -145,6 +157,24 @@ const char kBytes[4096] = {0};
 bool tracing() { static bool t = getenv("VERIF_C03_TRACE") != nullptr; return t; }
 #define TRACE(...) do { if (tracing()) { fprintf(stderr, "[c03 %s p%d] ", engine, pass); fprintf(stderr, __VA_ARGS__); fputc('\n', stderr); } } while (0)
 
+// ---- interrupted waits: a real-time signal nobody else uses, handled by a handler that only pokes the wake pipe
+int intr_signo() { return SIGRTMIN + 5; }
+volatile int g_wake_wfd = -1;
+void on_intr_signal(int) {
+  int saved = errno; int fd = g_wake_wfd;
+  if (fd >= 0) { char c = 1; ssize_t r = ::write(fd, &c, 1); (void)r; }
+  errno = saved;
+}
+struct SigGuard {   // installs the handler (no SA_RESTART) for one case and restores the previous disposition afterwards
+  struct sigaction old; bool on = false;
+  void install() {
+    if (on) return;
+    struct sigaction sa; memset(&sa, 0, sizeof sa); sa.sa_handler = on_intr_signal; sigemptyset(&sa.sa_mask); sa.sa_flags = 0;
+    on = sigaction(intr_signo(), &sa, &old) == 0;
+  }
+  ~SigGuard() { if (on) sigaction(intr_signo(), &old, nullptr); }
+};
+
 struct Run {
   const Def &d; const char *engine; Flags &fl;
   Loop *loop = nullptr;
@@ -152,6 +182,10 @@ struct Run {
   std::vector<std::shared_ptr<Rec>> evs;
   int pass = 0; bool in_cb = false; bool freed_this_pass = false;
   bool done = false;      // go() is over (a driver task left behind by an escaped exception must not do anything any more)
+  // interrupted waits
+  int wk_r = -1, wk_w = -1; FdEvent *wake_ev = nullptr; timer_t tm{}; bool tm_ok = false;
+  bool waiting_intr = false; bool wake_fired = false; int64_t arm_count = 0;
+  std::function<void()> tick;
   std::set<int> actors;   // descriptors whose callbacks attempted, in this pass, an action that is not confined to the acting event
   std::string err;
   std::vector<std::vector<std::pair<int, int>>> trace;   // per pass: (event, reported & subscribed)
@@ -193,12 +227,57 @@ struct Run {
       ::close(a[0]); ::close(a[1]);
       if (f.w < 0 || f.p < 0) { fail("harness: F_DUPFD failed"); return false; }
     }
+    if (d.has_intr) {
+      int a[2];
+      if (::pipe2(a, O_NONBLOCK | O_CLOEXEC) != 0) { fail("harness: pipe2 failed"); return false; }
+      wk_r = ::fcntl(a[0], F_DUPFD_CLOEXEC, 40); wk_w = ::fcntl(a[1], F_DUPFD_CLOEXEC, 240);
+      ::close(a[0]); ::close(a[1]);
+      if (wk_r < 0 || wk_w < 0) { fail("harness: F_DUPFD failed"); return false; }
+      wake_ev = loop->newFdEvent("c03 wake");
+      if (!wake_ev || !wake_ev->initialize(wk_r, FdEvent::kReadEvent, tbox::event::Event::Mode::kPersist)) { fail("harness: wake event"); return false; }
+      wake_ev->setCallback([this](short) { on_wake(); });
+      wake_ev->enable();
+      struct sigevent sev; memset(&sev, 0, sizeof sev);
+      sev.sigev_notify = SIGEV_THREAD_ID; sev.sigev_signo = intr_signo(); sev._sigev_un._tid = (pid_t)::syscall(SYS_gettid);
+      tm_ok = ::timer_create(CLOCK_MONOTONIC, &sev, &tm) == 0;
+      g_wake_wfd = wk_w;
+    }
     for (auto &e : d.evs) new_event(e.fdi, e.mask, e.oneshot, e.enabled);
     return err.empty();
   }
+  void arm(int usec) { struct itimerspec its; memset(&its, 0, sizeof its); its.it_value.tv_nsec = (long)usec * 1000; ::timer_settime(tm, 0, &its, nullptr); }
+  void disarm() { if (tm_ok) { struct itimerspec its; memset(&its, 0, sizeof its); ::timer_settime(tm, 0, &its, nullptr); } }
+  // the un-modelled wake event: the signal handler made its pipe readable; in kForever mode it continues the pass sequence
+  void on_wake() {
+    if (wk_r >= 0) drain(wk_r);
+    wake_fired = true;
+    if (waiting_intr && !done) {
+      waiting_intr = false;
+      // the wait entered after arming failed with EINTR iff a whole extra loop round (the interrupted one) lies in between
+      if ((int64_t)loop->getStat().loop_count - arm_count >= 2) fl.intr_eintr = true;
+      loop->runNext(tick, "c03 tick");
+    }
+  }
+  // Does the wait of this pass block?  Only then the interruption is armed (a pure function of scenario and model).
+  bool nothing_ready() const {
+    for (auto &r : evs) if (r->alive && r->enabled && fds[r->fdi].w >= 0 && (r->mask & fds[r->fdi].snap)) return false;
+    return true;
+  }
+  bool interrupt_this_pass(int k) {
+    if (!d.intr[k] || !tm_ok) return false;
+    if (!nothing_ready()) { fl.intr_not_blocking = true; return false; }
+    fl.intr_blocked = true;
+    for (auto &r : evs) if (r->alive && r->enabled && r->mask) fl.intr_with_enabled_idle = true;
+    return true;
+  }
   void teardown() {
+    disarm();
+    if (tm_ok) { ::timer_delete(tm); tm_ok = false; }
+    if (g_wake_wfd == wk_w) g_wake_wfd = -1;
     for (auto &r : evs) if (r->alive) { delete r->ev; r->ev = nullptr; r->alive = false; }
+    delete wake_ev; wake_ev = nullptr;
     delete loop; loop = nullptr;
+    nodelay_close(wk_r); nodelay_close(wk_w);
     for (auto &f : fds) { nodelay_close(f.w); nodelay_close(f.p); }
   }
   static void drain(int fd) { char b[4096]; for (int i = 0; i < 64; ++i) { ssize_t n = ::read(fd, b, sizeof b); if (n <= 0) break; } }
@@ -466,25 +545,45 @@ struct Run {
         for (int k = 0; k < np && err.empty(); ++k) {
           begin_pass(k);
           if (!err.empty()) break;
-          loop->runNext([] {}, "c03 keep the pass from blocking");
-          loop->runLoop(Loop::Mode::kOnce);
+          if (interrupt_this_pass(k)) {
+            // one loop round whose wait blocks until the signal arrives: EINTR (or, if the signal came before the wait
+            // was entered, the wake pipe is readable and its event fires)
+            wake_fired = false;
+            arm(d.intr[k]);
+            loop->runLoop(Loop::Mode::kOnce);
+            disarm();
+            if (!wake_fired) fl.intr_eintr = true;
+            drain(wk_r);
+          } else {
+            loop->runNext([] {}, "c03 keep the pass from blocking");
+            loop->runLoop(Loop::Mode::kOnce);
+          }
           end_pass(k);
         }
       } else {
+        // the virtual-loop driver of vloop.h (a task re-posted with runNext once per pass), extended by passes whose wait
+        // is not kept from blocking: there the wake event's callback re-posts the task
+        tick = [this, np] {
+          if (done) return;
+          end_pass(pass);
+          if (!err.empty() || pass + 1 >= np) { loop->exitLoop(); return; }
+          begin_pass(pass + 1);
+          if (!err.empty()) { loop->exitLoop(); return; }
+          if (interrupt_this_pass(pass)) { waiting_intr = true; arm_count = (int64_t)loop->getStat().loop_count; arm(d.intr[pass]); }
+          else loop->runNext(tick, "c03 tick");
+        };
         begin_pass(0);
-        if (err.empty())
-          vloop::drive(loop, [&](int p) {
-            if (done) return false;
-            end_pass(p);
-            if (!err.empty() || p + 1 >= np) return false;
-            begin_pass(p + 1);
-            return err.empty();
-          });
+        if (err.empty()) {
+          if (interrupt_this_pass(0)) { waiting_intr = true; arm_count = -1; arm(d.intr[0]); }
+          else loop->runNext(tick, "c03 tick");
+          loop->runLoop(Loop::Mode::kForever);
+        }
       }
     } catch (const std::exception &e) {
       fail(std::string("runLoop() let an exception escape: ") + e.what());
     }
     done = true;
+    tick = nullptr;
   }
 };
 
@@ -498,6 +597,7 @@ std::string run(const Scenario &s, CaseInfo &info) {
   static bool once = [] { signal(SIGPIPE, SIG_IGN); return true; }(); (void)once;
   Def d = parse(s);
   Flags fl;
+  SigGuard sig; if (d.has_intr) sig.install();
   std::vector<std::vector<std::pair<int, int>>> tr[2]; std::vector<char> dep[2], amb[2];
   const char *eng[2] = {"epoll", "select"};
   std::string err;
@@ -544,6 +644,10 @@ std::string run(const Scenario &s, CaseInfo &info) {
   info.cls_if(fl.reinit_in_cb, "cb_moves_itself_to_another_descriptor");
   info.cls_if(fl.hup, "peer_closed_hangup");
   info.cls_if(fl.unwritable, "unwritable_descriptor");
+  info.cls_if(fl.intr_blocked, "pass_blocks_in_wait_until_signal");
+  info.cls_if(fl.intr_eintr, "wait_interrupted_by_signal_EINTR");
+  info.cls_if(fl.intr_eintr && fl.intr_with_enabled_idle, "EINTR_with_enabled_events_on_not_ready_descriptors");
+  info.cls_if(fl.intr_not_blocking, "intr_requested_but_something_ready");
   info.cls_if(compared > 0, "differential_compared_1+_passes");
   info.cls_if(d.mode == 1, "mode_kOnce_per_pass");
   info.nontrivial = fl.nt;
@@ -576,13 +680,19 @@ void dumpSeed(const Scenario &s, const std::vector<int> &arity) {
 
 SubDef def = [] {
   SubDef d; d.name = "fdevents";
-  d.op_names = {"cfg", "fd", "ev", "pass", "rdy", "out", "cb"};   // action 8 (re-initialize) shares the cb/out ops
-  d.op_arity = {3, 1, 4, 0, 3, 4, 6};
+  d.op_names = {"cfg", "fd", "ev", "pass", "rdy", "out", "cb", "intr"};   // action 8 (re-initialize) shares the cb/out ops
+  d.op_arity = {3, 1, 4, 0, 3, 4, 6, 1};
   d.nt_rule = "some pass had >= 2 ready descriptors and a callback disabled/destroyed an enabled event of another ready descriptor, "
               "or a callback destroyed the last event of a descriptor and a new shared record was allocated in the same pass";
 #ifndef VERIF_ENGINE_FUZZ
   std::vector<int> arity = d.op_arity;
-  d.run = [arity](const Scenario &s, CaseInfo &info) { std::string e = run(s, info); if (e.empty() && info.nontrivial) dumpSeed(s, arity); return e; };
+  d.run = [arity](const Scenario &s, CaseInfo &info) {
+    std::string e = run(s, info);
+    static const bool only_intr = getenv("VERIF_C03_DUMP_INTR") != nullptr;   // seeds with an interrupted wait only
+    bool intr = false; for (auto c : info.classes) if (!strcmp(c, "wait_interrupted_by_signal_EINTR")) intr = true;
+    if (e.empty() && (only_intr ? intr : info.nontrivial)) dumpSeed(s, arity);
+    return e;
+  };
   d.gen = [] {
     // one rapidcheck-chosen number is expanded deterministically (cheap under ASan); shrinking works on the op list
     auto expand = [](int64_t seed) -> Scenario {
@@ -634,8 +744,20 @@ SubDef def = [] {
         mk(CB, {e, pick({{6, 0}, {3, 1}, {1, 2}, {2, 3}}), a[0], a[1], a[2], a[3]});
       }
       int np = (int)pick({{1, 1}, {3, 2}, {4, 3}, {3, 5}, {2, 8}});
+      // a fifth of the cases has one pass whose wait is interrupted by a signal: everything is drained / filled first so
+      // that (unless a peer hung up) no descriptor is ready and the loop really blocks
+      int intr_pass = rng(0, 4) == 0 ? (int)rng(0, np - 1) : -1;
       for (int p = 0; p < np; ++p) {
         if (p) mk(PASS, {});
+        if (p == intr_pass) {
+          for (int i = 0; i < nf; ++i) {
+            if (kind[i] != PIPE_W) mk(RDY, {i, R_DRAIN, 1});
+            if (kind[i] != PIPE_R) mk(RDY, {i, R_FILL, 1});
+          }
+          if (p && rng(0, 2) == 0) mk(OUT, {A_ENABLE, T_RAW, rng(0, 15), 0});
+          mk(INTR, {rng(0, 2)});
+          continue;
+        }
         for (int i = 0; i < nf; ++i) {
           int64_t what = pick({{p == 0 ? 8 : 4, R_WRITE}, {6, -1}, {1, R_DRAIN}, {1, R_FILL}, {1, R_UNFILL}, {p ? 1 : 0, R_CLOSEPEER}});
           if (what >= 0) mk(RDY, {i, what, pick({{3, 1}, {3, -1}}) < 0 ? rng(1, 3000) : rng(1, 10)});
